@@ -1,3 +1,128 @@
 import Ptk.Proto
--- stub: the C13 model driver has not been written yet
-def main : IO Unit := Ptk.Proto.run fun _ => "bad-op"
+import Ptk.Model.C13
+open Ptk Ptk.Py Ptk.Proto Ptk.C13
+
+/-- bytes: `b:` + comma separated decimals -/
+def decBytes (tok : String) : Option Bytes :=
+  if !tok.startsWith "b:" then none else
+  let body := (tok.drop 2).toString
+  if body.isEmpty then some [] else
+  (body.splitOn ",").mapM fun p => p.toNat?
+
+def encBytes (b : Bytes) : String :=
+  "b:" ++ ",".intercalate (b.map toString)
+
+def encStrs (l : List Text) : String := encList encStr l
+
+def decStrs : List String → Option (List Text × List String)
+  | [] => none
+  | n :: rest => do
+    let n ← decNat n
+    if rest.length < n then none
+    let l ← (rest.take n).mapM decStr
+    pure (l, rest.drop n)
+
+structure DrvSt where
+  fs : FS
+  th : TH
+
+def lpcCode : LPc → String
+  | .notStarted => "-" | .started => "start" | .called => "called" | .iter => "iter"
+  | .notify => "notify" | .notifyFinal => "notifyFinal" | .finished => "fin"
+
+def cpcCode : CPc → String
+  | .idle => "-" | .waiting => "wait" | .reading => "read" | .done => "done"
+
+def thLine (t : TH) : String :=
+  let ev := if t.cpc = .waiting ∨ t.cpc = .reading then encBool t.ev else "N"
+  let pend := match t.pend with | some s => encStr s | none => "N"
+  s!"L={lpcCode t.lpc} C={cpcCode t.cpc} ev={ev} loaded={encBool t.loaded} pend={pend} strs={encStrs t.strs} out={encStrs t.out} store={encStrs t.storage}"
+
+def parseStep : List String → Option Step
+  | ["cstart"] => some .cstart | ["cwait"] => some .cwait | ["cread"] => some .cread
+  | ["lreset"] => some .lreset | ["lsnap"] => some .lsnap | ["lappend"] => some .lappend
+  | ["lnotify"] => some .lnotify | ["ldone"] => some .ldone | ["lfinal"] => some .lfinal
+  | ["ains", s] => do pure (.ains (← decStr s))
+  | ["astore"] => some .astore
+  | _ => none
+
+def stepLine (d : DrvSt) (toks : List String) : DrvSt × String :=
+  match toks with
+  -- stateless codec / format functions
+  | ["enc", s] =>
+    match decStr s with
+    | some s => (d, encBytes (utf8.encText s))
+    | none => (d, "bad-op")
+  | ["dec", b] =>
+    match decBytes b with
+    | some b => (d, encStr (utf8.dec b))
+    | none => (d, "bad-op")
+  | ["record", ts, s] =>
+    match decStr ts, decStr s with
+    | some ts, some s => (d, encBytes (record utf8 ts s))
+    | _, _ => (d, "bad-op")
+  | ["loadraw", b] =>
+    match decBytes b with
+    | some b => (d, encStrs (loadFile utf8 b))
+    | none => (d, "bad-op")
+  -- file + instances
+  | ["fnew"] => ({ d with fs := FS.empty }, "ok")
+  | ["fraw", b] =>
+    match decBytes b with
+    | some b => ({ d with fs := { d.fs with file := b } }, "ok")
+    | none => (d, "bad-op")
+  | ["app", i, ts, s] =>
+    match decNat i, decStr ts, decStr s with
+    | some i, some ts, some s =>
+      let fs := d.fs.append utf8 i ts s
+      ({ d with fs := fs }, encBytes fs.file)
+    | _, _, _ => (d, "bad-op")
+  | ["load", i] =>
+    match decNat i with
+    | some i =>
+      let (fs, l) := d.fs.load utf8 i
+      ({ d with fs := fs }, encStrs l)
+    | none => (d, "bad-op")
+  | ["get", i] =>
+    match decNat i with
+    | some i => (d, encStrs (d.fs.getStrings i))
+    | none => (d, "bad-op")
+  | ["fresh"] => (d, encStrs (loadFile utf8 d.fs.file))
+  | ["trunc", k] =>
+    match decNat k with
+    | some k => (d, encStrs (loadFile utf8 (d.fs.file.take k)))
+    | none => (d, "bad-op")
+  | ["truncall"] =>
+    -- every truncation point at once: `load(file[:k])` for k = 0..len
+    (d, " | ".intercalate ((List.range (d.fs.file.length + 1)).map fun k =>
+          encStrs (loadFile utf8 (d.fs.file.take k))))
+  | ["cut", k] =>
+    match decNat k with
+    | some k =>
+      let fs := d.fs.cut k
+      ({ d with fs := fs }, encBytes fs.file)
+    | none => (d, "bad-op")
+  | ["cutb", j] =>
+    match decNat j with
+    | some j =>
+      let fs := d.fs.cut (d.fs.file.length - j)
+      ({ d with fs := fs }, encBytes fs.file)
+    | none => (d, "bad-op")
+  -- threaded history
+  | "tnew" :: rest =>
+    match decStrs rest with
+    | some (old, rest) =>
+      match decStrs rest with
+      | some (pre, []) =>
+        let t := TH.init old pre
+        ({ d with th := t }, thLine t)
+      | _ => (d, "bad-op")
+    | none => (d, "bad-op")
+  | _ =>
+    match parseStep toks with
+    | some s =>
+      let t := step d.th s
+      ({ d with th := t }, thLine t)
+    | none => (d, "bad-op")
+
+def main : IO Unit := runS stepLine { fs := FS.empty, th := TH.init [] [] }
